@@ -56,6 +56,8 @@ Inductive label :=
 | LBlkCas (t : nat)                   (* CAS(&status, acquired, blocked) *)
 | LBlkRecv (t : nat)                  (* <-ch                              [chan > 0] *)
 | LFRet (t : nat)                     (* f returns *)
+| LFPanic (t : nat)                   (* f panics: block() unwinds, its deferred re-acquire runs exactly as after a return
+                                         (the panic itself is the client's business: recovered further up or not) *)
 | LBlkSend (t : nat)                  (* ch <- struct{}{} of the re-acquire [chan < cap] *)
 | LBlkCas2 (t : nat)                  (* CAS(&status, blocked, acquired) *)
 | LBlkGiveBack (t : nat).             (* repaired code only: <-ch after a failed CAS [chan > 0] *)
@@ -145,7 +147,7 @@ Definition step (fx : bool) (s : state) (l : label) : option state :=
           end
       | _ => None
       end
-  | LFRet t =>
+  | LFRet t | LFPanic t =>
       match nth_error (threads s) t with
       | Some (B2 h) => Some (set_thread s t (B3 h))
       | Some (PF _) => Some (set_thread s t BDone)
@@ -289,7 +291,7 @@ Definition label_thread (s : state) (l : label) : nat :=
   match l with
   | LNewAcquire _ _ | LNewRelease _ | LNewBlock _ => length (threads s)
   | LCancel t | LAcqSend t | LAcqCtxDone t | LAcqNoLimiter t | LRelSwap t | LRelRecv t
-  | LBlkCas t | LBlkRecv t | LFRet t | LBlkSend t | LBlkCas2 t | LBlkGiveBack t => t
+  | LBlkCas t | LBlkRecv t | LFRet t | LFPanic t | LBlkSend t | LBlkCas2 t | LBlkGiveBack t => t
   end.
 
 (* one observed event: the operation, the program counter the goroutine was seen at afterwards,
